@@ -33,7 +33,7 @@ ASSUMPTIONS = [
     'the inherited `name` parameter is filtered out of every observation; watchers and dynamic values are outside the model; '
     'the hierarchy is fixed at the start of a history (no class creation inside it)',
     'class-level / instance-level assignment to a name that is not a Parameter there (plain Python attribute) is skipped on both sides',
-    '`repr`, watching: not observed separately; they read the same `objects("existing")` dictionary as values() and serialisation',
+    '`repr` is not observed separately (it reads the same `objects("existing")` dictionary as values() and serialisation); watcher registration is an operation of its own (watch then unwatch; no callbacks fire)',
     'edit_constant appears as a reader of the class namespace (instBlock: an empty block); its flag handling is C14',
 ]
 RULE = ('directed prefix (stale-cache scenarios of the design round, failed add_parameter, every model branch) + all histories of '
@@ -49,7 +49,7 @@ COVERAGE_TARGETS = [
     'newInst:ok', 'newInst:ok:kwargs', 'newInst:TypeError:kwargs', 'newInst:ValueError:kwargs',
     'instSet:ok:makes-copy', 'instSet:ok:has-copy', 'instSet:ValueError:has-copy', 'instSet:skip:makes-copy',
     'instParam:ok:makes-copy', 'instParam:ok:has-copy', 'instParam:KeyError:makes-copy',
-    'instBlock:ok:fill', 'instBlock:ok:cached', 'clsSetParam:ok:unread', 'clsSetParam:ok:cache-read', 'clsSetParam:RuntimeError:cache-read', 
+    'instBlock:ok:fill', 'instBlock:ok:cached', 'watchCls:ok', 'watchCls:ValueError', 'watchInst:ok', 'watchInst:ValueError', 'clsSetParam:ok:unread', 'clsSetParam:ok:cache-read', 'clsSetParam:RuntimeError:cache-read', 
     'shape:chain3', 'shape:chain4', 'shape:diamond', 'shape:diamond-tail', 'shape:two-roots', 'shape:fork',
     'obs:stale-window', 'kind:String', 'kind:Integer', 'kind:Nosy', 'value:None-on-instance', 'value:None-class-default',
 ]
@@ -190,6 +190,13 @@ def run_impl(case):
                     p = mkparam(st['d'], st.get('hi'))
                     register(p)
                     setattr(classes[st['c']], st['n'], p)      # Parameter-valued class assignment
+                elif op in ('watchCls', 'watchInst'):
+                    if op == 'watchInst' and st['i'] >= len(insts):
+                        res = 'stuck'
+                    else:
+                        target = classes[st['c']] if op == 'watchCls' else insts[st['i']]
+                        w = target.param.watch(lambda event: None, [st['n']])    # ValueError for a name not in the namespace
+                        target.param.unwatch(w)
                 elif op == 'instBlock':
                     if st['i'] >= len(insts):
                         res = 'stuck'
@@ -286,6 +293,10 @@ def _directed():
         {'op': 'instParam', 'i': 1, 'n': 'x'}, {'op': 'instParam', 'i': 1, 'n': 'x'}, {'op': 'instParam', 'i': 1, 'n': 'q'},
         {'op': 'addParam', 'c': 0, 'n': 'x', 'd': 6, 'hi': None}, {'op': 'instSet', 'i': 1, 'n': 'x', 'v': 6},
         {'op': 'instSet', 'i': 5, 'n': 'x', 'v': 6}], 'all'))
+    # watcher registration tests membership in the (cached) namespace
+    out.append(('chain3', D3, [R(2), {'op': 'watchCls', 'c': 2, 'n': 'z'}, {'op': 'addParam', 'c': 0, 'n': 'z', 'd': 3, 'hi': None},
+                               {'op': 'watchCls', 'c': 2, 'n': 'z'}, {'op': 'newInst', 'c': 1, 'kw': []}, {'op': 'watchInst', 'i': 0, 'n': 'z'},
+                               {'op': 'watchInst', 'i': 0, 'n': 'q'}, {'op': 'watchInst', 'i': 4, 'n': 'x'}], 'end'))
     # edit_constant reads the class namespace and must not write per-instance copies into it
     out.append(('chain3', D3, [{'op': 'newInst', 'c': 2, 'kw': []}, {'op': 'instSet', 'i': 0, 'n': '_y', 'v': 3},
                                {'op': 'instBlock', 'i': 0}, {'op': 'clsSet', 'c': 2, 'n': '_y', 'v': 7},
@@ -336,7 +347,8 @@ def _alphabet(ncls):
                 {'op': 'addParam', 'c': c, 'n': 'x', 'd': 9, 'hi': None}]
     ops += [{'op': 'newInst', 'c': ncls - 1, 'kw': []}, {'op': 'newInst', 'c': 1, 'kw': [['x', 4]]},
             {'op': 'instSet', 'i': 0, 'n': 'x', 'v': 2}, {'op': 'instSet', 'i': 0, 'n': '_y', 'v': 6},
-            {'op': 'instParam', 'i': 0, 'n': 'x'}, {'op': 'instParam', 'i': 0, 'n': 'z'}, {'op': 'instBlock', 'i': 0}]
+            {'op': 'instParam', 'i': 0, 'n': 'x'}, {'op': 'instParam', 'i': 0, 'n': 'z'}, {'op': 'instBlock', 'i': 0},
+            {'op': 'watchCls', 'c': ncls - 1, 'n': 'z'}, {'op': 'watchInst', 'i': 0, 'n': 'z'}]
     return ops
 
 
@@ -373,8 +385,11 @@ def _random_case(rng):
             ninst += 1
         elif r < 0.88:
             op = {'op': 'instSet', 'i': rng.randrange(ninst), 'n': n, 'v': -1 if rng.random() < 0.2 else rng.randint(0, 8)}
-        elif r < 0.96:
+        elif r < 0.94:
             op = {'op': 'instParam', 'i': rng.randrange(ninst), 'n': n}
+        elif r < 0.97:
+            op = ({'op': 'watchInst', 'i': rng.randrange(ninst), 'n': n} if rng.random() < 0.5
+                  else {'op': 'watchCls', 'c': c, 'n': n})
         else:
             op = {'op': 'instBlock', 'i': rng.randrange(ninst)}
         ops.append(op)
